@@ -324,6 +324,121 @@ theorem potential_uniform_monotone (r0 r1 : ℝ) (rest rho : List ℝ) (h01 : r0
     rw [fdUniform_head_l _ _ rw hrw]; simp
   exact ⟨hmono, le_last_of_pairwise _ hmono 0 (wall_zero (r0 :: r1 :: rest) rho (by simp) (by simpa using hl)).2⟩
 
+/-! ### discrete Gauss law (uniform grids) -/
+
+/-- row `k` (`k + 1 < l.length`) of the interior rows of the uniform construction started at node index `j` -/
+theorem fdUniInterior_getElem (dr : ℝ) : ∀ (l : List ℝ) (j k : ℕ) (h : k + 1 < l.length),
+    (fdUniInterior dr j l)[k]'(by rw [fdUniInterior_length]; omega) =
+      ((1 - 0.5 / ((j + k : ℕ) : ℝ)) / dr ^ 2, -2 / dr ^ 2, (1 + 0.5 / ((j + k : ℕ) : ℝ)) / dr ^ 2) := by
+  intro l
+  induction l with
+  | nil => intro j k h; simp at h
+  | cons a t ih =>
+    intro j k h
+    cases t with
+    | nil => simp at h
+    | cons a' t' =>
+      cases k with
+      | zero => simp [fdUniInterior]
+      | succ k' =>
+        have := ih (j + 1) k' (by simpa using h)
+        simp only [fdUniInterior, List.getElem_cons_succ]
+        rw [this]
+        have : j + 1 + k' = j + (k' + 1) := by omega
+        rw [this]
+
+/-- **interior rows of `fd_system_uniform_grid`**: row `i` (`1 ≤ i`, `i + 1 < n`) is
+`((1 − 1/(2i))/h², −2/h², (1 + 1/(2i))/h²)` -/
+theorem fdUniform_getElem (r0 r1 : ℝ) (rest : List ℝ) (i : ℕ) (hi : 1 ≤ i) (h : i + 1 < rest.length + 2) :
+    (fdUniform (r0 :: r1 :: rest))[i]'(by rw [fdUniform_length]; omega) =
+      ((1 - 0.5 / (i : ℝ)) / (r1 - r0) ^ 2, -2 / (r1 - r0) ^ 2, (1 + 0.5 / (i : ℝ)) / (r1 - r0) ^ 2) := by
+  obtain ⟨k, rfl⟩ : ∃ k, i = k + 1 := ⟨i - 1, by omega⟩
+  have hk := fdUniInterior_getElem (r1 - r0) (r1 :: rest) 1 k (by simp; omega)
+  have e : fdUniform (r0 :: r1 :: rest) =
+      ((0 : ℝ), -2 / (r1 - r0) ^ 2, 2 / (r1 - r0) ^ 2) :: fdUniInterior (r1 - r0) 1 (r1 :: rest) := by
+    simp [fdUniform]
+  rw [List.getElem_of_eq e, List.getElem_cons_succ, hk]
+  have : ((1 + k : ℕ) : ℝ) = ((k + 1 : ℕ) : ℝ) := by push_cast; ring
+  rw [this]
+
+/-- **discrete Gauss law on uniform grids** (differential form): every interior row of the uniform
+finite-difference system is a flux balance — the flux `(i + ½)(φ_{i+1} − φ_i)` through the cell face
+outside node `i` equals the flux `(i − ½)(φ_i − φ_{i−1})` through the face inside plus the charge term
+`i h² b_i` of the node (`b = −ρ/ε₀`). Outside the charge (`b_i = 0`) the flux is conserved from face
+to face: `φ_{i+1} − φ_i = F/(i + ½)`, the finite-difference form of the logarithmic Gauss-law
+potential (`ln((i+1)/i) = 1/(i+½) + O(i⁻³)`). -/
+theorem gauss_law_uniform (r0 r1 : ℝ) (rest b x : List ℝ) (h01 : r0 < r1)
+    (hb : b.length = rest.length + 2) (hx : x.length = rest.length + 2)
+    (hsol : mulTri 0 (withRhs (fdUniform (r0 :: r1 :: rest)) b) x = b)
+    (i : ℕ) (hi : 1 ≤ i) (h : i + 1 < rest.length + 2) :
+    ((i : ℝ) + 1 / 2) * (x[i + 1] - x[i]) =
+      ((i : ℝ) - 1 / 2) * (x[i] - x[i - 1]) + (i : ℝ) * (r1 - r0) ^ 2 * b[i] := by
+  have hcl : (fdUniform (r0 :: r1 :: rest)).length = rest.length + 2 := fdUniform_length r0 r1 rest
+  have hwl : (withRhs (fdUniform (r0 :: r1 :: rest)) b).length = rest.length + 2 := by
+    rw [withRhs_length _ _ (by omega)]; exact hcl
+  have hrow := withRhs_getElem (fdUniform (r0 :: r1 :: rest)) b (by omega) i (by omega)
+  have hco := fdUniform_getElem r0 r1 rest i hi h
+  have e := mulTri_getElem 0 (withRhs (fdUniform (r0 :: r1 :: rest)) b) x (by omega) i hi (by omega)
+  have hbi : (mulTri 0 (withRhs (fdUniform (r0 :: r1 :: rest)) b) x)[i]'(by rw [mulTri_length _ _ _ (by omega)]; omega) = b[i] := by
+    simp only [hsol]
+  rw [e, hrow, hco] at hbi
+  simp only at hbi
+  have hdr : 0 < r1 - r0 := by linarith
+  have hiR : (0 : ℝ) < i := by exact_mod_cast (by omega : 0 < i)
+  have hd2 : (r1 - r0) ^ 2 ≠ 0 := by positivity
+  have key : (i : ℝ) * (r1 - r0) ^ 2 * b[i] =
+      ((i : ℝ) - 1 / 2) * x[i - 1] - 2 * (i : ℝ) * x[i] + ((i : ℝ) + 1 / 2) * x[i + 1] := by
+    rw [← hbi]; field_simp; ring
+  rw [key]; ring
+
+theorem getD_eq_getElem'' (l : List ℝ) (d : ℝ) (i : ℕ) (h : i < l.length) : l.getD i d = l[i] := by
+  simp [List.getD_eq_getElem?_getD, h]
+
+/-- **discrete Gauss law, integrated form**: outside the charge (`b_i = 0` for all nodes `i ≥ K`, `K ≥ 1`) the
+flux through every cell face equals the flux through the face just inside node `K`, i.e. the enclosed
+charge: `(i + ½)(φ_{i+1} − φ_i) = (K − ½)(φ_K − φ_{K−1})` for every `i ≥ K` -/
+theorem gauss_flux_conserved (r0 r1 : ℝ) (rest b x : List ℝ) (h01 : r0 < r1)
+    (hb : b.length = rest.length + 2) (hx : x.length = rest.length + 2)
+    (hsol : mulTri 0 (withRhs (fdUniform (r0 :: r1 :: rest)) b) x = b)
+    (K : ℕ) (hK : 1 ≤ K) (hzero : ∀ i, K ≤ i → ∀ h : i < b.length, b[i] = 0) :
+    ∀ i, K ≤ i → i + 1 < rest.length + 2 →
+      ((i : ℝ) + 1 / 2) * (x.getD (i + 1) 0 - x.getD i 0) = ((K : ℝ) - 1 / 2) * (x.getD K 0 - x.getD (K - 1) 0) := by
+  intro i hKi
+  induction i, hKi using Nat.le_induction with
+  | base =>
+    intro h
+    have g := gauss_law_uniform r0 r1 rest b x h01 hb hx hsol K hK h
+    rw [hzero K le_rfl (by omega)] at g
+    rw [getD_eq_getElem'' _ _ _ (by omega), getD_eq_getElem'' _ _ _ (by omega), getD_eq_getElem'' _ _ _ (by omega)]
+    rw [g]; ring
+  | succ i hKi ih =>
+    intro h
+    have g := gauss_law_uniform r0 r1 rest b x h01 hb hx hsol (i + 1) (by omega) h
+    rw [hzero (i + 1) (by omega) (by omega)] at g
+    have ih' := ih (by omega)
+    rw [getD_eq_getElem'' _ _ _ (by omega), getD_eq_getElem'' _ _ _ (by omega)] at ih' ⊢
+    have e1 : ((i + 1 : ℕ) : ℝ) - 1 / 2 = (i : ℝ) + 1 / 2 := by push_cast; ring
+    simp only [Nat.add_sub_cancel] at g
+    rw [g, e1, mul_zero, add_zero]
+    exact ih'
+
+/-- the discrete Gauss law holds for the potential `radial_potential_uniform_grid` computes — for every
+charge distribution, step and number of nodes (no hypothesis on the solution: `potential_uniform_solves_fd`) -/
+theorem gauss_law_potential_uniform (r0 r1 : ℝ) (rest rho : List ℝ) (h01 : r0 < r1) (hl : rho.length = rest.length + 2)
+    (i : ℕ) (hi : 1 ≤ i) (h : i + 1 < rest.length + 2) :
+    ((i : ℝ) + 1 / 2) * ((potentialUniform (r0 :: r1 :: rest) rho).getD (i + 1) 0 - (potentialUniform (r0 :: r1 :: rest) rho).getD i 0) =
+      ((i : ℝ) - 1 / 2) * ((potentialUniform (r0 :: r1 :: rest) rho).getD i 0 - (potentialUniform (r0 :: r1 :: rest) rho).getD (i - 1) 0)
+        + (i : ℝ) * (r1 - r0) ^ 2 * (poissonRhs rho).getD i 0 := by
+  have hbl : (poissonRhs rho).length = rest.length + 2 := by rw [poissonRhs_length, hl]
+  have hxl : (potentialUniform (r0 :: r1 :: rest) rho).length = rest.length + 2 := by
+    unfold potentialUniform
+    rw [solve_length, withRhs_length _ _ (by rw [fdUniform_length, hbl]), fdUniform_length]
+  have g := gauss_law_uniform r0 r1 rest (poissonRhs rho) (potentialUniform (r0 :: r1 :: rest) rho) h01 hbl hxl
+    (potential_uniform_solves_fd r0 r1 rest rho h01 hl) i hi h
+  rw [getD_eq_getElem'' _ _ _ (by omega), getD_eq_getElem'' _ _ _ (by omega), getD_eq_getElem'' _ _ _ (by omega),
+    getD_eq_getElem'' _ _ _ (by omega)]
+  exact g
+
 /-! ### non-vacuity -/
 example : GridOk [0, 1, 3] := by
   refine ⟨by simp [List.pairwise_cons], fun _ => by simp⟩
